@@ -466,7 +466,7 @@ def _evaluator(kind, n1, part, rng, bounds):
     lo = np.array([max(b[0], -2.0) for b in bounds])
     hi = np.array([min(b[1], 2.0) for b in bounds])
     amp = part["amp"]
-    if kind in ("rbf", "kernel", "subsetrbf"):
+    if kind in ("rbf", "kernel", "subsetrbf", "prefixrbf", "listrbf"):
         xc = rng.uniform(lo, hi, (nctrl, n1))
         alpha = rng.normal(size=nctrl) * amp
         ls = rng.uniform(0.4, 1.5, n1)
@@ -475,6 +475,17 @@ def _evaluator(kind, n1, part, rng, bounds):
             sl_ = slice(0, n1, step)
             idx = list(range(n1))[sl_]
             kern = K.DiffConstantKernel(0.8) * K.SubsetRBF(sl_, length_scale=ls[idx])
+            return X.RBFEvaluator(kern, np.ascontiguousarray(xc[:, idx]), alpha)
+        if kind in ("prefixrbf", "listrbf"):
+            # SubsetRBF on a leading prefix 0..k-1 (k < n1 where possible) / on an arbitrary sorted index list
+            if kind == "prefixrbf":
+                k_ = int(rng.integers(1, max(n1, 2)))
+                idx = list(range(min(k_, n1)))
+                sel = slice(0, len(idx)) if rng.integers(2) else slice(None, len(idx))
+            else:
+                idx = sorted(rng.choice(n1, int(rng.integers(1, n1 + 1)), replace=False).tolist())
+                sel = idx
+            kern = K.DiffConstantKernel(float(rng.uniform(0.5, 1.5))) * K.SubsetRBF(sel, length_scale=ls[idx])
             return X.RBFEvaluator(kern, np.ascontiguousarray(xc[:, idx]), alpha)
         kern = K.DiffConstantKernel(float(rng.uniform(0.5, 1.5))) * K.DiffRBF(length_scale=ls)
         if kind == "rbf":
